@@ -223,6 +223,10 @@ class Handles:
                     continue        # window entries: their removal / re-arming is the business of the retry rules
                 later = evs[i + 1:]
                 renewed = any(x.kind == "SETATTR" and x.a["obj"] == h[1] and x.a["field"] == h[2] for x in later)
+                # handle, x.alarm = x.alarm, None ... handle.cancel(): the location was cleared before the cancel; what is cancelled is
+                # the value it held before (the store's `prev`)
+                renewed = renewed or any(x.kind == "SETATTR" and x.a["obj"] == h[1] and x.a["field"] == h[2] and x.a.get("prev") == h
+                                         for x in evs[:i])
                 if renewed:
                     continue
                 others = [(t2, e2) for t2, e2 in cancels_at.get(loc, []) if e2 is not e and (t2.kind == "LOSS" or t2 is not tr)]
